@@ -409,6 +409,46 @@ func (f *Flow) prepare(fn *ssa.Function) {
 			f.phiGen[b] = ins
 			continue
 		}
+		// `if v != nil` / `if v == nil` where v is a phi of this block over
+		// constant nil and provably non-nil values (the "collect an error in
+		// a variable, then test it once" shape): the outcome is known per
+		// incoming edge
+		if bo, ok := ifi.Cond.(*ssa.BinOp); ok && (bo.Op == token.EQL || bo.Op == token.NEQ) {
+			var phi *ssa.Phi
+			if c, isC := bo.Y.(*ssa.Const); isC && c.IsNil() {
+				phi, _ = bo.X.(*ssa.Phi)
+			} else if c, isC := bo.X.(*ssa.Const); isC && c.IsNil() {
+				phi, _ = bo.Y.(*ssa.Phi)
+			}
+			if phi != nil && phi.Block() == b && bo.Block() == b {
+				ins := make([]phiIn, len(phi.Edges))
+				known := 0
+				for j, e := range phi.Edges {
+					ins[j].constVal = -1
+					isNilEdge := false
+					if c, ok := e.(*ssa.Const); ok && c.IsNil() {
+						isNilEdge = true
+					} else if !provablyNonNil(f.P, e, emptySet(), 0) {
+						continue
+					}
+					known++
+					// truth value of the condition on this edge
+					t := !isNilEdge // v != nil
+					if bo.Op == token.EQL {
+						t = isNilEdge
+					}
+					if t {
+						ins[j].constVal = 1
+					} else {
+						ins[j].constVal = 0
+					}
+				}
+				if known == len(phi.Edges) {
+					f.phiGen[b] = ins
+					continue
+				}
+			}
+		}
 		g, gs := f.condGen(m, ifi.Cond)
 		f.gen[b] = g
 		f.genSum[b] = gs
